@@ -14,6 +14,7 @@ trap 'git -C /repo worktree remove --force $W 2>/dev/null; git -C /repo checkout
 cd $W
 git apply $d/patch.diff || { echo "RESULT patch-does-not-apply"; exit 3; }
 go build ./... 2>/tmp/nv-build.$$ || { echo "RESULT does-not-compile"; head -5 /tmp/nv-build.$$; exit 3; }
+if [ -n "$SKIP_SUITE" ]; then suite="not re-run here (the author's run is in the README)"; else
 suite=$(go test -vet=off -count=1 -json ./... 2>/dev/null | python3 -c "
 import json,sys
 p=f=0
@@ -23,6 +24,7 @@ for l in sys.stdin:
     if e.get('Test') and e.get('Action')=='pass': p+=1
     if e.get('Test') and e.get('Action')=='fail': f+=1
 print(p,f)")
+fi
 echo "suite with change: pass/fail = $suite"
 props=$(grep '^+++ b/' $d/patch.diff | sed 's#^+++ b/##' | python3 -c "
 import sys
